@@ -52,7 +52,7 @@ func c29SecpGen(r *vu.RNG, n int, emit func(string)) {
 		emit("srecover " + h(msg[:31]) + " " + h(sig))
 		// x = r + n: recovery ids 2 and 3 with a tiny r
 		for v := byte(0); v < 4; v++ {
-			for _, rr := range []int64{1, 2, 3, 4, 5, 6, 7} {
+			for _, rr := range []int64{1, 2, 3} {
 				emit("srecover " + h(msg) + " " + h(append(append(c29b32(big.NewInt(rr)), c29b32(big.NewInt(1))...), v)))
 			}
 		}
